@@ -174,8 +174,9 @@ def env_for(variant: str = 'rel') -> dict:
             ['gcc', '-print-file-name=libubsan.so'], capture_output=True, text=True,
         ).stdout.strip()
         env['LD_PRELOAD'] = f'{libasan} {libubsan}'
-        env['ASAN_OPTIONS'] = 'detect_leaks=0:abort_on_error=0:exitcode=66:allocator_may_return_null=1'
-        env['UBSAN_OPTIONS'] = 'print_stacktrace=1:halt_on_error=1:exitcode=67'
+        sym = os.environ.get('VERIF_SYMBOLIZE', '0')
+        env['ASAN_OPTIONS'] = f'detect_leaks=0:abort_on_error=0:exitcode=66:allocator_may_return_null=1:symbolize={sym}:detect_stack_use_after_return=0'
+        env['UBSAN_OPTIONS'] = f'print_stacktrace=1:halt_on_error=1:exitcode=67:symbolize={sym}'
         env['PYTHONMALLOC'] = 'malloc'
     return env
 
